@@ -21,6 +21,16 @@ type vWorld struct {
 	dealt uint64 // highest revision dealt so far (concrete)
 	floor uint64
 	nops  int
+	evs   []vEvent // reference event log: one entry per successful write, in revision order
+}
+
+// vEvent is what a watcher must see for one successful write.
+type vEvent struct {
+	typ   proto.Event_EventType
+	key   []byte
+	val   []byte // for deletes: the previous value
+	rev   uint64
+	kvRev uint64 // for deletes: the previous modification revision
 }
 
 var vBases = []uint64{5, 99998, 1<<40 + 7, 1<<63 - 3}
@@ -81,6 +91,7 @@ func (w *vWorld) create(tag string, key []byte) uint64 {
 	zzverif.Assert(rev == w.dealt, "create: header carries the dealt revision")
 	if want {
 		w.g.Append(key, rev, val, false)
+		w.evs = append(w.evs, vEvent{proto.Event_CREATE, key, val, rev, rev})
 		zzverif.Cover("create-ok")
 	} else {
 		zzverif.Cover("create-refused")
@@ -111,6 +122,11 @@ func (w *vWorld) update(tag string, key []byte) uint64 {
 	if want {
 		zzverif.Assert(rev == w.dealt, "update: header carries the dealt revision")
 		w.g.Append(key, rev, val, false)
+		if exp == 0 {
+			w.evs = append(w.evs, vEvent{proto.Event_CREATE, key, val, rev, rev})
+		} else {
+			w.evs = append(w.evs, vEvent{proto.Event_PUT, key, val, rev, rev})
+		}
 		zzverif.Cover("update-ok")
 	} else {
 		zzverif.Cover("update-refused")
@@ -148,6 +164,7 @@ func (w *vWorld) del(tag string, key []byte) uint64 {
 		zzverif.Assert(zzverif.BytesEq(resp.Kv.Value, newest.Val), "delete: previous value")
 		zzverif.Assert(resp.Kv.Revision == newest.Rev, "delete: previous revision")
 		w.g.Append(key, rev, nil, true)
+		w.evs = append(w.evs, vEvent{proto.Event_DELETE, key, newest.Val, rev, newest.Rev})
 		zzverif.Cover("delete-ok")
 	} else if live {
 		zzverif.Cover("delete-refused")
@@ -281,5 +298,16 @@ func VerifC03Count() {
 	w.history()
 	rg := vRanges[zzverif.Choose("range", len(vRanges))]
 	w.checkCount(rg[0], rg[1])
+	zzverif.Cover("done")
+}
+
+// VerifC01Seq: sequential histories: every create/update/delete outcome, returned kv and header
+// agrees with the reference chain semantics (assertions in step), from every state the history reaches.
+func VerifC01Seq() {
+	w := vNewWorld(zzverif.Param("keys", 1))
+	w.history()
+	for i := 0; i < w.nkeys; i++ {
+		w.checkGet(vNames[i], 0)
+	}
 	zzverif.Cover("done")
 }
